@@ -29,6 +29,17 @@ def gen_op(rng, w, first, hardlinks):
     have = sorted(T[d]['files'])
     ex = (lambda: rng.choice(have)) if have else (lambda: rpath(rng))
     k = rng.random()
+    if w.filters and rng.random() < 0.25:
+        # names the configuration excludes (or that the tool ignores): they must never show up in diff, list or the content
+        n = rng.choice(['.hid', 'x.tmp', 'da/y.tmp', 'exdir/a', 'da/.h2', 'exdir/in/b', 'da/exdir/c', 'em2/z.tmp'])
+        j = rng.random()
+        if j < 0.5:
+            return ['create', d, n, rng.choice(SIZES)]
+        if j < 0.65:
+            return ['symlink', d, rng.choice(['l.tmp', '.hl', 'exdir/l']), 'a']
+        if j < 0.85:
+            return ['fifo', d, rng.choice(['pipe', 'em3/pipe', 'da/pipe'])]
+        return ['delete', d, n]
     if first or not have or k < 0.16:
         return ['create', d, rpath(rng), rng.choice(SIZES)]
     if k < 0.21:
@@ -42,7 +53,7 @@ def gen_op(rng, w, first, hardlinks):
     if k < 0.42:
         return ['truncate', d, ex(), rng.choice([0, 1, 1024, 1500])]
     if k < 0.50:
-        return ['delete', d, ex() if rng.random() < 0.8 else rng.choice(sorted(T[d]['links']) + sorted(T[d]['dirs']) + [rpath(rng)])]
+        return ['delete', d, ex() if rng.random() < 0.65 else rng.choice(sorted(T[d]['links']) + sorted(T[d]['dirs']) + [rpath(rng)])]
     if k < 0.60:
         return ['rename', d, ex(), rpath(rng)]
     if k < 0.64:
@@ -153,7 +164,7 @@ def incomplete(st):
 class Hist:
     def __init__(self, chk, binary, shim, model, rng, cfg):
         self.chk, self.rng, self.cfg = chk, rng, cfg
-        self.w = World(binary, shim, rng, nd=cfg['nd'], np_=cfg['np'], order=cfg['order'], fake_uuid=cfg['uuid'], multi=cfg['multi'], where=cfg['where'])
+        self.w = World(binary, shim, rng, nd=cfg['nd'], np_=cfg['np'], order=cfg['order'], fake_uuid=cfg['uuid'], multi=cfg['multi'], where=cfg['where'], filters=cfg.get('filters', False), murmur=cfg.get('murmur', False), splits=cfg.get('splits', 1))
         self.model = None if cfg['multi'] else model     # the model scans the disks one after the other: threaded histories are judged by the oracles only
         self.recorded = None        # view() of the tree at the last sync (what the array is supposed to know)
         self.ncmd = 0
@@ -213,6 +224,25 @@ class Hist:
                                      model=pred['counters'], real=cnt, request=pred['request'][:6000])
             for k, v in cnt.items():
                 self.counts[k] = self.counts.get(k, 0) + v
+        if self.cfg.get('gui') and cnt is not None:
+            # -G: one scan:equal tag per unchanged entry (the other scan: tags are always logged): judged against the walk
+            rg = w.run('diff', '-G'); self.ncmd += 1
+            eq = [t for t in rg.tags if t.startswith('scan:equal:')]
+            old = self.recorded or {}
+            want = set()
+            for d in a.disks:
+                fo, lo = old.get(d, ({}, {}))
+                usable = w.inodes_usable(st0, d)
+                for s_, v in vnow[d][0].items():
+                    if s_ in fo and fo[s_][:2] == v[:2] and (not usable or fo[s_][2] == v[2]):
+                        want.add('scan:equal:%s:%s' % (d, s_))
+                for s_, v in vnow[d][1].items():
+                    if lo.get(s_) == v:
+                        want.add('scan:equal:%s:%s' % (d, s_))
+            self.stats['gui_equal_tags'] = self.stats.get('gui_equal_tags', 0) + len(eq)
+            if rg.rc != r.rc or (not w.multi and counters(rg) != cnt) or (not any(o[0] in ('swap', 'rename', 'linkkind', 'hardlink') for o in ops) and not w.multi and set(eq) != want) or len(eq) != counters(rg)['equal']:
+                self.bad('gui_equal', 'diff -G (exit %d, %s) logs scan:equal for %s, the walk says unchanged: %s' % (rg.rc, counters(rg), sorted(eq)[:6], sorted(want)[:6]))
+                return False
         if self.cfg['both_scans']:
             r2 = w.run('diff', multi=not w.multi); self.ncmd += 1
             if r2.rc != r.rc or (self.cfg['order'] == 'alpha' and counters(r2) != cnt and not any(o[0] in ('copy', 'move') for o in ops)):
@@ -266,7 +296,7 @@ class Hist:
             self.bad('diff_equal_count', 'diff after sync counts %d equal entries, the tree has %d files and links' % (cnt['equal'], nent))
             return False
         # ---- list against the walk
-        r = w.run('list'); self.ncmd += 1
+        r = w.run('list', *(['-v'] if self.cfg.get('gui') else [])); self.ncmd += 1
         lf, ll = list_tags(r)
         ef = {(d, s): (v[0], v[1] // 10**9, v[1] % 10**9) for d in a.disks for s, v in vnow[d][0].items()}
         el = {(d, s): v for d in a.disks for s, v in vnow[d][1].items()}
@@ -304,6 +334,50 @@ class Hist:
             for e in (a.check_map(st) + a.check_parity(st)[0])[:1]:
                 self.bad('c06_oracle', 'after a sync killed before its first parity write: %s' % e)
                 return False
+        return True
+
+    def step_during(self, ops, victim, action, prehash=False):
+        """a file changes AFTER the scan and BEFORE the sync loop reads it (--test-run runs a command between the two): the sync
+        must notice (attributes are checked again when the file is opened), count an error, fail, and leave the file's stripes
+        unsynced; the next diff exits 2 and the next sync converges"""
+        w, a = self.w, self.w.arr
+        for o in ops:
+            w.op(o)
+        w.sync_store()
+        d, sub = victim
+        q = w.p(d, sub)
+        script = os.path.join(a.root, 'during.sh')
+        cmd = {'touch': 'touch -d "2031-01-01 00:00:00.5" %s' % q, 'rm': 'rm -f %s' % q, 'append': 'echo more >> %s' % q, 'replace': 'cp -p %s %s.n && mv %s.n %s' % (q, q, q, q)}[action]
+        open(script, 'w').write('#!/bin/sh\n%s\n' % cmd)
+        st0, lst = w.content(), w.listing()
+        ro = ['--test-run', 'sh ' + script]
+        if self.model:
+            r = c11_model.sync_with_model(self, st0, lst, [], prehash=prehash, nokill=True, fs_after=True, real_opts=ro)
+            if r is False:
+                return False
+        else:
+            r = w.run('sync', *((['-h'] if prehash else []) + ro)); self.ncmd += 1
+        w.log.append(['during-sync', action, d, sub])
+        self.stats['changed_during_sync'] = self.stats.get('changed_during_sync', 0) + 1
+        if os.path.isfile(q):
+            a.note_version(d, sub)
+        st = w.content()
+        tags = [t for t in r.tag('error:') if ':%s:%s:' % (d, sub) in t]
+        f = next((f for f in st['disks'][d]['files'] if f['sub'].decode('latin1') == sub), None)
+        f0 = next((x for x in (st0['disks'].get(d, {'files': []})['files'] if st0 else []) if x['sub'].decode('latin1') == sub), None)
+        same = f0 is not None and f is not None and (f0['size'], f0['sec'], f0['nsec']) == (f['size'], f['sec'], f['nsec'])
+        newblk = f is not None and any(b[0] == 'BLK' and not (same and i < len(f0['blocks']) and f0['blocks'][i] == b) for i, b in enumerate(f['blocks']))
+        if r.rc == 0 or not tags or f is None or newblk:
+            self.bad('changed_during_sync', '%s:%s was changed (%s) between the scan and the sync loop: sync exits %d, error tags %s, recorded blocks %s'
+                     % (d, sub, action, r.rc, tags[:2], f and [b[0] for b in f['blocks']]))
+            return False
+        for e in (a.check_map(st) + a.check_parity(st)[0])[:1]:
+            self.bad('c06_oracle', 'after a sync during which a file changed: %s' % e)
+            return False
+        r = w.run('diff'); self.ncmd += 1
+        if r.rc != 2:
+            self.bad('diff_verdict', 'diff exits %d after a sync that failed on a file changed under it' % r.rc)
+            return False
         return True
 
     def invisible_probe(self, st2, vnow):
@@ -387,6 +461,40 @@ def scripted(chk, binary, shim, model, rng, tier):
         finally:
             shutil.rmtree(H.w.arr.root, ignore_errors=True)
         out.append(H)
+    for v in range(max(2, nvar // 2)):
+        # (f) a sync whose ONLY change is a file restored under its name with the same size and time-stamp but a new inode (usable inodes);
+        #     split parity: the content file then stores the parity sizes and is rewritten only when something changed
+        cfg = {'nd': 3, 'np': 1, 'order': ['alpha', 'inode', 'dir', 'physical'][v % 4], 'uuid': True, 'multi': False, 'where': 'tmpfs', 'both_scans': False,
+               'seed': rng.getrandbits(32), 'scripted': 'restore_only', 'splits': 2, 'gui': v % 2 == 1}
+        H = Hist(chk, binary, shim, model, random.Random(cfg['seed']), cfg)
+        try:
+            ok = H.step([['create', 'd1', 'm', rng.choice([1, 2048, 3000])], ['create', 'd1', 'k', 1024], ['create', 'd2', 'c', 2500], ['create', 'd3', 'e', 10]])
+            ok = ok and H.step([['create', 'd3', 'filler', 5]])        # the fake UUIDs are recorded now: inodes usable
+            ok = ok and H.step([['restore', 'd1', 'm']])
+            ok = ok and H.step([['restore', 'd2', 'c'], ['restore', 'd1', 'k']])
+            ok = ok and H.step([])
+            if ok and model:
+                c11_model.flush_drift(H)
+        finally:
+            shutil.rmtree(H.w.arr.root, ignore_errors=True)
+        out.append(H)
+    for v in range(nvar):
+        # (e) a file changes between the scan and the sync loop
+        action = ['touch', 'rm', 'append', 'replace'][v % 4]
+        cfg = {'nd': 2, 'np': 1, 'order': 'alpha', 'uuid': v % 2 == 0, 'multi': False, 'where': 'tmpfs', 'both_scans': False,
+               'seed': rng.getrandbits(32), 'scripted': 'changed_during_sync/' + action, 'murmur': True}
+        H = Hist(chk, binary, shim, model, random.Random(cfg['seed']), cfg)
+        try:
+            ok = H.step([['create', 'd1', 'a', 3072], ['create', 'd1', 'b', 100], ['create', 'd2', 'c', 2048]])
+            victim = ('d1', 'n1') if v % 3 else ('d1', 'a')
+            ops = [['create', 'd1', 'n1', 2500], ['rewrite', 'd2', 'c']] + ([['rewrite', 'd1', 'a']] if victim[1] == 'a' and v % 2 else [])
+            ok = ok and H.step_during(ops, victim, action, prehash=((v // 4) % 2 == 1) if nvar > 4 else (v % 2 == 1))
+            ok = ok and H.step([])
+            if ok and model:
+                c11_model.flush_drift(H)
+        finally:
+            shutil.rmtree(H.w.arr.root, ignore_errors=True)
+        out.append(H)
     for v in range(nvar):
         # (c) an incomplete sync whose remaining work is only removals (DELETED blocks under live blocks of another disk), then no change
         how = ['B1', 'S2B1', 'kill', 'B2'][v % 4]
@@ -400,6 +508,32 @@ def scripted(chk, binary, shim, model, rng, tier):
             elif ok:
                 ok = H.step([['delete', 'd2', 'Y']], partial=True, popts={'B1': ['-B', '1'], 'S2B1': ['-S', '2', '-B', '1'], 'B2': ['-B', '2']}[how])
             ok = ok and H.step([])
+            if ok and model:
+                c11_model.flush_drift(H)
+        finally:
+            shutil.rmtree(H.w.arr.root, ignore_errors=True)
+        out.append(H)
+    for v in range(max(2, nvar // 2)):
+        # (d) links and empty directories that go away; a content file written before nanoseconds were recorded; excluded names
+        cfg = {'nd': 2, 'np': 1, 'order': ['alpha', 'inode'][v % 2], 'uuid': v % 2 == 0, 'multi': False, 'where': 'tmpfs', 'both_scans': False,
+               'seed': rng.getrandbits(32), 'scripted': 'removals+old_nsec+filters', 'gui': True, 'filters': True}
+        H = Hist(chk, binary, shim, model, random.Random(cfg['seed']), cfg)
+        try:
+            w = H.w
+            ok = H.step([['create', 'd1', 'a', 2500], ['create', 'd1', 'da/b', 1024], ['create', 'd2', 'c', 0], ['symlink', 'd1', 'l1', 'a'], ['symlink', 'd2', 'da/l2', 'nowhere'],
+                         ['symlink', 'd1', 'keepl', 'da/b'], ['create', 'd1', 'e0', 0], ['mkdir', 'd1', 'em'], ['mkdir', 'd2', 'da/ee/f'], ['create', 'd1', 'x.tmp', 100], ['create', 'd1', '.hid', 10], ['create', 'd2', 'exdir/q', 10],
+                         ['fifo', 'd2', 'em3/pipe'], ['create', 'd2', 'onlytmp/z.tmp', 5]] + ([['hardlink', 'd1', 'a', 'zh']] if cfg['order'] == 'alpha' else []))
+            ok = ok and H.step([['delete', 'd1', 'l1'], ['delete', 'd1', 'em'], ['delete', 'd2', 'da/l2'], ['copy', 'd1', 'e0', 'd2', 'e0']] + ([['delete', 'd1', 'zh']] if cfg['order'] == 'alpha' else []))
+            if ok:
+                # the content file as an old version would have written it: no nanoseconds recorded; nothing changed on the disks
+                data = open(w.arr.content_files[0], 'rb').read()
+                new, nf = content_forget_nsec(data, (lambda sub: True) if v % 2 == 0 else (lambda sub: sub != b'a'))
+                for cpath in [w.arr.content_files[0], os.path.join(w.arr.root, 'd1', 'snapraid.content')]:
+                    open(cpath, 'wb').write(new)
+                w.log.append(['content-without-nanoseconds', nf])
+                H.stats['old_nsec_files'] = H.stats.get('old_nsec_files', 0) + nf
+                ok = H.step([])
+            ok = ok and H.step([['delete', 'd2', 'da/ee/f'], ['create', 'd2', 'exdir/q2', 3]])
             if ok and model:
                 c11_model.flush_drift(H)
         finally:
@@ -471,7 +605,7 @@ def configs(rng, n):
     for h in range(n):
         order = ORDERS[h % 4]
         cfgs.append({'nd': rng.choice([2, 2, 3]), 'np': rng.choice([1, 1, 2]), 'order': order, 'uuid': h % 3 != 2, 'multi': h % 5 == 4,
-                     'where': 'disk' if h % 4 == 3 or h % 7 == 5 else 'tmpfs', 'both_scans': h % 2 == 0, 'seed': rng.getrandbits(32)})
+                     'where': 'disk' if h % 4 == 3 or h % 7 == 5 else 'tmpfs', 'both_scans': h % 2 == 0, 'seed': rng.getrandbits(32), 'gui': h % 3 == 1, 'filters': h % 4 == 2, 'splits': 2 if h % 5 == 3 else 1})
     return cfgs
 
 
